@@ -59,7 +59,7 @@ def SSs (fuel : Nat) : Prop :=
     CI s d (betweenSubselections s fx fuel me p1 id1 sels1 p2 id2 sels2 c).2 ∧
     (0 < (betweenSubselections s fx fuel me p1 id1 sels1 p2 id2 sels2 c).1 →
       ∃ p1' p2' rn e1 e2, Adm s d id1 p1' ∧ Adm s d id2 p2' ∧ Coll s d p1' sels1 rn e1 ∧ Coll s d p2' sels2 rn e2 ∧
-        Conf s d me e1 e2)
+        (Conf s d me e1 e2 ∨ Conf s d me e2 e1))
 
 theorem CI.crash {s : SchemaD} {d : Doc} {c : OCtx} (h : CI s d c) (x : Option String) : CI s d { c with crash := x } :=
   ⟨h.frags, h.cache⟩
@@ -92,7 +92,9 @@ theorem step_find (fuel : Nat) (hss : SSs s fx d fuel) : SFind s fx d (fuel + 1)
     obtain ⟨c1, c2⟩ := hss me _ _ _ _ _ _ c hc s1 a1 s2 a2
     refine ⟨c1, fun h => ?_⟩
     obtain ⟨p1', p2', rn, e1, e2, b1, b2, b3, b4, b5⟩ := c2 h
-    exact .sub hsub.1 hsub.2 b1 b2 b3 b4 (by rw [hm]; exact b5)
+    rcases b5 with b5 | b5
+    · exact .sub hsub.1 hsub.2 b1 b2 b3 b4 (by rw [hm]; exact b5)
+    · exact .subSwap hsub.1 hsub.2 b1 b2 b3 b4 (by rw [hm]; exact b5)
   have htail : CI s d
       (if (match f1.fdef.map (·.type), f2.fdef.map (·.type) with
           | some a, some b => typesConflict s a b
